@@ -3,6 +3,7 @@ CONSTANTS NNodes = 1
  MaxMut = 1
  PairStride = 1
  LexStride = 1
+ NumStride = 1
  FirstStride = 1
  VarStride = 1
  SparseStride = 1
